@@ -230,6 +230,8 @@ def make_symbolic(spec, name, reg, st):
         if tag == 'record':
             return SObj(spec[1], {f: make_symbolic(t, f'{name}.{f}', reg, st)
                                   for f, t in spec[2].items()})
+        if tag == 'dict':       # ('dict', {key: spec}): a dict / table with these string keys
+            return {k: make_symbolic(t, f'{name}[{k!r}]', reg, st) for k, t in spec[1].items()}
     raise Unsupported(f'type spec {spec!r}')
 
 
